@@ -835,6 +835,34 @@ theorem goodW_toLower (w : Bytes) (h : GoodW w) : GoodW (toLowerAscii w) := by
       exact (hasPrefix_iff _ _).2 ⟨t.map lowerByte, by simp [lowerByte]⟩
     · rw [toLowerAscii_eq, List.getLast?_map, hl]; rfl
 
+theorem byteArray_toList_loop (bs : ByteArray) (i : Nat) (r : List UInt8) :
+    ByteArray.toList.loop bs i r = r.reverse ++ bs.data.toList.drop i := by
+  fun_induction ByteArray.toList.loop bs i r with
+  | case1 i r h ih =>
+    rw [ih]
+    have hi : i < bs.data.toList.length := by simpa using h
+    rw [List.drop_eq_getElem_cons hi]
+    have : bs.get! i = bs.data.toList[i] := by
+      cases bs with | mk d =>
+      simp only [ByteArray.get!]
+      have : i < d.size := by simpa using hi
+      simp [this]
+    simp [this]
+  | case2 i r h =>
+    have : bs.data.toList.length ≤ i := by
+      have h2 : bs.size = bs.data.toList.length := by
+        cases bs with | mk d => simp only [ByteArray.size, Array.length_toList]
+      omega
+    simp [List.drop_of_length_le this]
+
+theorem byteArray_toList (bs : ByteArray) : bs.toList = bs.data.toList := by
+  simp [ByteArray.toList, byteArray_toList_loop]
+
+/-- the bytes of a string, character by character -/
+theorem utf8_bytes (cs : List Char) :
+    (String.ofList cs).toUTF8.toList = cs.flatMap String.utf8EncodeChar := by
+  simp [byteArray_toList, List.utf8Encode]
+
 /-! ### `Idna.toASCII` does not introduce a colon -/
 
 theorem asciiChar_byte (c : Char) (h : c.toNat < 128) :
@@ -1026,12 +1054,12 @@ theorem mem_intercalate (sep : Bytes) (x : UInt8) : ∀ ls : List Bytes, x ∈ s
         · exact Or.inr ⟨m, List.mem_cons_of_mem _ hm, hx⟩
 
 theorem go_nc (ch : Bytes) : ∀ (ls acc : List Bytes), (∀ l ∈ ls, (58 : UInt8) ∉ l) → (∀ a ∈ acc, (58 : UInt8) ∉ a) →
-    Idna.toASCII.go ls (some acc) = .ok ch → (58 : UInt8) ∉ ch := by
+    Idna.toASCIILower.go ls (some acc) = .ok ch → (58 : UInt8) ∉ ch := by
   intro ls
   induction ls with
   | nil =>
     intro acc _ hacc h
-    simp only [Idna.toASCII.go] at h
+    simp only [Idna.toASCIILower.go] at h
     cases h
     intro hm
     rcases mem_intercalate _ _ _ hm with hm | ⟨l, hl, hx⟩
@@ -1039,7 +1067,7 @@ theorem go_nc (ch : Bytes) : ∀ (ls acc : List Bytes), (∀ l ∈ ls, (58 : UIn
     · exact hacc l (by simpa using hl) hx
   | cons l t ih =>
     intro acc hls hacc h
-    simp only [Idna.toASCII.go] at h
+    simp only [Idna.toASCIILower.go] at h
     split at h
     · next a ha =>
       apply ih (a :: acc) (fun m hm => hls m (List.mem_cons_of_mem _ hm)) ?_ h
@@ -1051,18 +1079,104 @@ theorem go_nc (ch : Bytes) : ∀ (ls acc : List Bytes), (∀ l ∈ ls, (58 : UIn
       rw [h] at hr
       exact absurd rfl (hr ch)
 
-theorem toASCII_no_colon (w ch : Bytes) (h : Idna.toASCII w = .ok ch) (hw : (58 : UInt8) ∉ w) : (58 : UInt8) ∉ ch := by
-  unfold Idna.toASCII at h
+theorem toASCIILower_no_colon (lh ch : Bytes) (h : Idna.toASCIILower lh = .ok ch) (hw : (58 : UInt8) ∉ lh) :
+    (58 : UInt8) ∉ ch := by
+  unfold Idna.toASCIILower at h
   simp only at h
   refine go_nc ch _ [] ?_ (fun a ha => by cases ha) h
   intro l hl hm
-  have := mem_splitOn 46 _ l hl 58 hm
-  obtain ⟨c, hc, e⟩ := List.mem_map.1 this
-  have : c = 58 := by
-    have := (lowerByte_facts c).1.1 (by unfold lowerByte; exact e)
-    exact this
-  subst this
-  exact hw hc
+  exact hw (mem_splitOn 46 _ l hl 58 hm)
+
+/-- a UTF-8 encoded character contains the byte `:` only if it is `:` -/
+theorem mem58_encodeChar (d : Char) (h : (58 : UInt8) ∈ String.utf8EncodeChar d) : d.toNat = 58 := by
+  have hv : d.toNat = d.val.toNat := rfl
+  have key : ∀ n : Nat, UInt8.ofNat n = 58 → n % 256 = 58 := by
+    intro n hn
+    have := congrArg UInt8.toNat hn
+    simpa using this
+  unfold String.utf8EncodeChar at h
+  simp only at h
+  split at h
+  · simp only [List.mem_singleton] at h
+    have := key _ h.symm
+    omega
+  · split at h
+    · simp only [List.mem_cons, List.not_mem_nil, or_false] at h
+      rcases h with h | h <;> have := key _ h.symm <;> omega
+    · split at h
+      · simp only [List.mem_cons, List.not_mem_nil, or_false] at h
+        rcases h with h | h | h <;> have := key _ h.symm <;> omega
+      · simp only [List.mem_cons, List.not_mem_nil, or_false] at h
+        rcases h with h | h | h | h <;> have := key _ h.symm <;> omega
+
+theorem lowerCp_58 (n : Nat) (h : Idna.lowerCp n = 58) : n = 58 := by
+  unfold Idna.lowerCp at h
+  repeat' split at h
+  all_goals simp only [Bool.and_eq_true, decide_eq_true_eq, bne_iff_ne, ne_eq] at *
+  all_goals omega
+
+theorem charOfNat_58 (m : Nat) (h : (Char.ofNat m).toNat = 58) : m = 58 := by
+  unfold Char.ofNat at h
+  split at h
+  · exact h
+  · have h0 : (0 : Nat) = 58 := h
+    omega
+
+/-- the decoded code points of a byte string without `:` contain no `:` -/
+theorem utf8Dec_no_colon (l : Bytes) (cps : List Nat) (h : Idna.utf8Dec l = some cps) (hl : (58 : UInt8) ∉ l) :
+    58 ∉ cps := by
+  obtain ⟨cs, e1, e2⟩ := utf8Dec_bytes l cps h
+  intro hn
+  rw [e1] at hn
+  obtain ⟨c, hc, ec⟩ := List.mem_map.1 hn
+  obtain ⟨hb, hv⟩ := asciiChar_byte c (by omega)
+  apply hl
+  rw [e2, List.mem_flatMap]
+  refine ⟨c, hc, ?_⟩
+  rw [hb]
+  have : c.val.toUInt8 = 58 := by
+    apply UInt8.toNat_inj.1
+    rw [hv, ec]; rfl
+  simp [this]
+
+theorem utf8Enc_no_colon (cps : List Nat) (h : ∀ n ∈ cps, n ≠ 58) : (58 : UInt8) ∉ Idna.utf8Enc cps := by
+  unfold Idna.utf8Enc
+  rw [utf8_bytes]
+  intro hm
+  obtain ⟨d, hd, hx⟩ := List.mem_flatMap.1 hm
+  obtain ⟨n, hn, e⟩ := List.mem_map.1 hd
+  subst e
+  exact h n hn (charOfNat_58 n (mem58_encodeChar _ hx))
+
+theorem lowerHost_no_colon (w lh : Bytes) (h : Idna.lowerHost w = some lh) (hw : (58 : UInt8) ∉ w) :
+    (58 : UInt8) ∉ lh := by
+  unfold Idna.lowerHost at h
+  split at h
+  · cases h
+    intro hm
+    obtain ⟨c, hc, e⟩ := List.mem_map.1 hm
+    have : c = 58 := (lowerByte_facts c).1.1 (by unfold lowerByte; exact e)
+    subst this
+    exact hw hc
+  · split at h
+    · cases h
+    · next cps hc =>
+      split at h
+      · cases h
+        apply utf8Enc_no_colon
+        intro n hn e
+        obtain ⟨m, hm, em⟩ := List.mem_map.1 hn
+        rw [e] at em
+        have := lowerCp_58 m em
+        subst this
+        exact utf8Dec_no_colon w cps hc hw hm
+      · cases h
+
+theorem toASCII_no_colon (w ch : Bytes) (h : Idna.toASCII w = .ok ch) (hw : (58 : UInt8) ∉ w) : (58 : UInt8) ∉ ch := by
+  unfold Idna.toASCII at h
+  split at h
+  · cases h
+  · next lh hl => exact toASCIILower_no_colon lh ch h (lowerHost_no_colon w lh hl hw)
 
 theorem fixHost_decomp (scheme host h' w opt : Bytes) (hf : fixHost scheme host = .ok h')
     (hd : Decomp host w opt) :
@@ -1284,34 +1398,6 @@ theorem validHost_ok (scheme host : Bytes) (h : validHost scheme host = .ok true
         simp only [Bool.not_eq_true', Bool.not_eq_false] at hv
         exact ⟨hc.1.1.1.1, hv⟩
 
-
-theorem byteArray_toList_loop (bs : ByteArray) (i : Nat) (r : List UInt8) :
-    ByteArray.toList.loop bs i r = r.reverse ++ bs.data.toList.drop i := by
-  fun_induction ByteArray.toList.loop bs i r with
-  | case1 i r h ih =>
-    rw [ih]
-    have hi : i < bs.data.toList.length := by simpa using h
-    rw [List.drop_eq_getElem_cons hi]
-    have : bs.get! i = bs.data.toList[i] := by
-      cases bs with | mk d =>
-      simp only [ByteArray.get!]
-      have : i < d.size := by simpa using hi
-      simp [this]
-    simp [this]
-  | case2 i r h =>
-    have : bs.data.toList.length ≤ i := by
-      have h2 : bs.size = bs.data.toList.length := by
-        cases bs with | mk d => simp only [ByteArray.size, Array.length_toList]
-      omega
-    simp [List.drop_of_length_le this]
-
-theorem byteArray_toList (bs : ByteArray) : bs.toList = bs.data.toList := by
-  simp [ByteArray.toList, byteArray_toList_loop]
-
-/-- the bytes of a string, character by character -/
-theorem utf8_bytes (cs : List Char) :
-    (String.ofList cs).toUTF8.toList = cs.flatMap String.utf8EncodeChar := by
-  simp [byteArray_toList, List.utf8Encode]
 
 theorem digitChar_byte (c : Char) (h : c.isDigit = true) :
     String.utf8EncodeChar c = [c.val.toUInt8] ∧ isDigit c.val.toUInt8 = true ∧
